@@ -2,8 +2,17 @@
 // Copyright 2019 TiKV Project Authors. Licensed under Apache-2.0.
 
 use std::collections::btree_map::Entry as BEntry;
+#[cfg(not(prometheus_verif_map))]
 use std::collections::hash_map::Entry as HEntry;
+#[cfg(prometheus_verif_map)]
+use crate::verif_map::Entry as HEntry;
+#[cfg(not(prometheus_verif_map))]
 use std::collections::{BTreeMap, HashMap, HashSet};
+#[cfg(prometheus_verif_map)]
+use {
+    crate::verif_map::{HashMap, HashSet},
+    std::collections::BTreeMap,
+};
 use std::sync::Arc;
 
 use parking_lot::RwLock;
